@@ -50,14 +50,21 @@ def check(impl, scn):
             pending.append((key, t, out_of[tk[1]], size))
         elif tk[1] in in_of:
             dst = in_of[tk[1]]
-            # the most recent matching departure from another address
+            # the matching departures from another address, most recent first. Several packets that look alike may be
+            # in flight at once (two SYN-ACKs of one acceptor endpoint to two connectors using the same port): the
+            # arrival is too early only if it is too early for EVERY departure it can stem from
+            bad = None; ok = False
             for i in range(len(pending) - 1, -1, -1):
                 k2, t0, src, sz = pending[i]
                 if k2 == key and src != dst and t0 <= t:
                     lb = lower(src, dst, sz)
-                    n += 1
                     # one tick of rounding per hop
                     if Fraction(t - t0) + 8 < lb:
-                        fails.append(("route_lower_bound", "%s seq=%s (%d bytes) crossed %s -> %s in %d ns, latency + serialisation along the route sum to %s" % (key[0], key[1], sz, src, dst, t - t0, float(lb))))
-                    break
+                        if bad is None: bad = (sz, src, t0, lb)
+                    else:
+                        ok = True; break
+            if ok or bad is not None: n += 1
+            if bad is not None and not ok:
+                sz, src, t0, lb = bad
+                fails.append(("route_lower_bound", "%s seq=%s (%d bytes) crossed %s -> %s in %d ns, latency + serialisation along the route sum to %s" % (key[0], key[1], sz, src, dst, t - t0, float(lb))))
     return fails
